@@ -25,7 +25,7 @@ man = dict(version=1,
                       baseline_off_cmd="cd /repo && cargo test --workspace --no-fail-fast --offline",
                       source_commits=[], add_only=True),
            engines=[dict(name="vx", path="/verif/vx", serves_properties=sorted(conf["properties"]),
-                         kind_free_text="contract-based deductive verification: Verus on functions extracted mechanically from /repo on every run, contracts injected from vx/units/*.vu")],
+                         kind_free_text="contract-based deductive verification: Verus on functions extracted mechanically from /repo on every run, contracts injected from vx/units/*.vu; plus a BOUNDED Kani/CBMC companion for the leaf parsers (vx/kani.py: counterexample finder with native replay, never counted as proof)")],
            checks=checks, not_applicable=na, notes=meta.get("notes", ""))
 json.dump(man, open(os.path.join(V, "MANIFEST.json"), "w"), indent=1)
 print("MANIFEST.json: %d checks, %d n/a" % (len(checks), len(na)))
